@@ -139,8 +139,8 @@ def check_announced(ctx, tree, pattern, old_text, new_text, res_stdout, focus_fa
             raise
         ctx.violation("C02", "render_not_recognised", dict(focus_facts, text=new_text, exc=type(ex).__name__),
                       "announced %r cannot be read back: %s: %s (pattern %r)" % (new_text, type(ex).__name__, ex, pattern))
-    # C15: the PEP440 line
-    if pep440.is_pep440(new_text):
+    # C15: the PEP440 line (only `test` prints one)
+    if res_stdout is not None and pep440.is_pep440(new_text):
         line = None
         for ln in res_stdout.splitlines():
             if ln.startswith("PEP440"):
@@ -159,6 +159,15 @@ def expectation(ctx, tree, state, text, flags, clock, date_conflict=False):
     """Reference verdict for one bump: -> (kind, state|None, text|None); kind: ok | must_fail:* | unspecified:*"""
     exp_state = exp_text = None
     kind = "ok"
+    names = set(rp.parts_of(tree))
+    inapplicable = [k for k, part in (("major", "MAJOR"), ("minor", "MINOR"), ("patch", "PATCH"))
+                    if flags.get(k) and part not in names]
+    if inapplicable:
+        # The statement prescribes nothing for a flag whose part the pattern lacks: bumpver may refuse (test does)
+        # or ignore the flag (update does).  Either is accepted; a success must follow the rules without the flag.
+        flags = {k: v for k, v in flags.items() if k not in inapplicable}
+        ctx.count("inapplicable_flag")
+        kind = "ok?"
     try:
         if date_conflict:
             raise rb.MustFail("date_and_pin_date")
@@ -171,6 +180,8 @@ def expectation(ctx, tree, state, text, flags, clock, date_conflict=False):
     except rb.MustFail as ex:
         kind = "must_fail:" + ex.reason
         exp_state = exp_text = None
+        if inapplicable:
+            ctx.probe("must_fail_flag_not_applicable")
     except rb.Unspecified as ex:
         kind = "unspecified:" + ex.cls
         exp_state = exp_text = None
@@ -197,6 +208,12 @@ def judge_bump(ctx, tree, pattern, state, text, flags, clock, delta, exp, exit_c
                 return None
             return st, new_text, generated
         return state, text, generated
+    if exit_code != 0 and exp_kind == "ok?":
+        ctx.probe("must_fail_flag_not_applicable")
+        ctx.nontriv(abstract + ("inapplicable_flag_refused",))
+        return state, text, generated
+    if exp_kind == "ok?":
+        exp_kind = "ok"
     if exit_code != 0:
         if exp_kind == "ok" and exp_text is not None:
             legal = rp.accepts(tree, exp_text) and pep440.cmp(exp_text, text) > 0
